@@ -456,3 +456,617 @@ Proof.
     + exfalso; apply NI. rewrite KK. apply in_map; auto.
     + exfalso; apply NI. rewrite <- KK. apply in_map; auto.
 Qed.
+
+(* ================================================================== the invariant of the repaired model *)
+Definition esc_of (p : bool) (id : Z) : addr := if p then APerp id else ASpot id.
+Definition is_esc (a : addr) : bool := match a with ASpot _ | APerp _ => true | _ => false end.
+
+Lemma esc_esc_of o : esc o = esc_of (o_perp o) (o_id o).
+Proof. reflexivity. Qed.
+
+Lemma esc_of_inj p id p' id' : esc_of p id = esc_of p' id' -> p = p' /\ id = id'.
+Proof. destruct p, p'; simpl; intro H; inversion H; auto. Qed.
+
+Lemma is_esc_esc o : is_esc (esc o) = true.
+Proof. unfold esc; destruct (o_perp o); reflexivity. Qed.
+
+Lemma is_esc_cases a : is_esc a = true -> exists p id, a = esc_of p id.
+Proof. destruct a; simpl; try discriminate; intros _; [exists false, id | exists true, id]; reflexivity. Qed.
+
+(* every pending order's escrow account holds exactly the escrowed coin; escrow accounts that belong to no
+   pending order (cancelled, executed, not yet issued) are empty; ids are unique and below the counters *)
+Record Inv (s : state) : Prop := mkInv {
+  inv_nodup : NoDup (map okey (ords s));
+  inv_ids : forall o, In o (ords s) -> o_id o < (if o_perp o then npid s else nsid s);
+  inv_exact : forall o, In o (ords s) -> exact_escrow (bk s) o;
+  inv_free : forall p id d, find_ord p id (ords s) = None -> bk s (esc_of p id) d = 0
+}.
+
+Lemma find_none_iff p id l : find_ord p id l = None <-> ~ In (p, id) (map okey l).
+Proof.
+  unfold find_ord. induction l as [|x l IH]; simpl; [tauto|].
+  destruct (key_eqb p id x) eqn:K.
+  - apply key_eqb_true in K. destruct K as [K1 K2]. split; [discriminate|]. intro H. exfalso. apply H. left.
+    unfold okey. congruence.
+  - rewrite IH. split; intro H; [intros [E|E]; auto|tauto].
+    unfold okey in E. inversion E. assert (key_eqb p id x = true) by (apply key_eqb_true; auto). congruence.
+Qed.
+
+Lemma find_in_nodup l o : NoDup (map okey l) -> In o l -> find_ord (o_perp o) (o_id o) l = Some o.
+Proof.
+  unfold find_ord. induction l as [|x l IH]; intros ND I; [destruct I|].
+  simpl in ND. inversion ND as [|? ? NI ND']; subst. simpl.
+  destruct (key_eqb (o_perp o) (o_id o) x) eqn:K.
+  - apply key_eqb_true in K. destruct K as [K1 K2]. destruct I as [I|I]; [congruence|].
+    exfalso. apply NI. replace (okey x) with (okey o) by (unfold okey; congruence). apply in_map; auto.
+  - destruct I as [I|I]; [subst; assert (key_eqb (o_perp o) (o_id o) o = true) by (apply key_eqb_true; auto); congruence|].
+    apply IH; auto.
+Qed.
+
+Lemma in_keys_remove k p id l :
+  In k (map okey (remove_ord p id l)) <-> In k (map okey l) /\ k <> (p, id).
+Proof.
+  unfold remove_ord. induction l as [|x l IH]; simpl; [tauto|].
+  destruct (key_eqb p id x) eqn:K; simpl.
+  - apply key_eqb_true in K. destruct K as [K1 K2]. rewrite IH. unfold okey at 2. rewrite K1, K2.
+    split; [intros [A B]; auto | intros [[A|A] B]; [congruence|auto]].
+  - rewrite IH. split; [intros [A|[A B]]; [|auto] | intros [[A|A] B]; auto].
+    split; auto. subst k. intro E. unfold okey in E. inversion E.
+    assert (key_eqb p id x = true) by (apply key_eqb_true; auto). congruence.
+Qed.
+
+Lemma in_remove x p id l : In x (remove_ord p id l) <-> In x l /\ okey x <> (p, id).
+Proof.
+  unfold remove_ord. rewrite filter_In. split; intros [A B]; split; auto.
+  - intro E. unfold okey in E. inversion E. assert (key_eqb p id x = true) by (apply key_eqb_true; auto).
+    rewrite H in B; discriminate.
+  - destruct (key_eqb p id x) eqn:K; auto. apply key_eqb_true in K. destruct K. exfalso. apply B. unfold okey; congruence.
+Qed.
+
+Lemma nodup_keys_remove p id l : NoDup (map okey l) -> NoDup (map okey (remove_ord p id l)).
+Proof.
+  unfold remove_ord. induction l as [|x l IH]; simpl; intro ND; [constructor|].
+  inversion ND as [|? ? NI ND']; subst.
+  destruct (negb (key_eqb p id x)); simpl; auto.
+  constructor; auto. intro I. apply NI. fold (remove_ord p id l) in I. apply in_keys_remove in I. tauto.
+Qed.
+
+Lemma keys_replace n l : map okey (replace_ord n l) = map okey l.
+Proof.
+  unfold replace_ord. induction l as [|x l IH]; simpl; auto. rewrite IH. f_equal.
+  destruct (key_eqb (o_perp n) (o_id n) x) eqn:K; auto. apply key_eqb_true in K. destruct K. unfold okey; congruence.
+Qed.
+
+Lemma in_replace y n l : In y (replace_ord n l) -> y = n \/ In y l.
+Proof.
+  unfold replace_ord. rewrite in_map_iff. intros (x & E & I).
+  destruct (key_eqb (o_perp n) (o_id n) x); subst; auto.
+Qed.
+
+Lemma find_keys_eq p id l l' : map okey l = map okey l' -> (find_ord p id l = None <-> find_ord p id l' = None).
+Proof. intro E. rewrite !find_none_iff, E. tauto. Qed.
+
+Lemma find_remove_some p id p' id' l x : find_ord p id (remove_ord p' id' l) = Some x -> find_ord p id l = Some x.
+Proof.
+  unfold find_ord, remove_ord. induction l as [|y l IH]; simpl; [discriminate|].
+  destruct (key_eqb p' id' y) eqn:K'; simpl.
+  - intro H. specialize (IH H). destruct (key_eqb p id y) eqn:K; auto.
+    exfalso. apply find_some in H. destruct H as [I Kx]. apply filter_In in I. destruct I as [I NK].
+    apply key_eqb_true in K, K', Kx. destruct K, K', Kx.
+    assert (key_eqb p' id' x = true) by (apply key_eqb_true; split; congruence). rewrite H5 in NK. discriminate.
+  - destruct (key_eqb p id y); auto.
+Qed.
+
+(* ---- frames *)
+Definition same_esc (b b' : bank) : Prop := forall a d, is_esc a = true -> b' a d = b a d.
+
+Lemma inv_same_esc s b' : Inv s -> same_esc (bk s) b' -> Inv (mkS b' (ords s) (nsid s) (npid s)).
+Proof.
+  intros [ND IDS EX FRE] SE. constructor; simpl; auto.
+  - intros o I. destruct (EX o I) as (A & K & X). repeat split; auto. intro d. rewrite SE by apply is_esc_esc. apply X.
+  - intros p id d F. rewrite SE by (destruct p; reflexivity). apply FRE; auto.
+Qed.
+
+Lemma send_same_esc b from to d amt b' : send b from to d amt = Some b' -> is_esc from = false -> is_esc to = false -> same_esc b b'.
+Proof.
+  intros S F T a d' E. destruct (send_some _ _ _ _ _ _ S) as (_ & Fr & _). apply Fr. left.
+  split; intro; subst; congruence.
+Qed.
+
+Lemma party_not_esc v a : party_ok v a = true -> is_esc a = false.
+Proof. destruct a; simpl; auto; discriminate. Qed.
+
+Lemma apply_xfers_frame v ops : forall b b', apply_xfers v b ops = Ok b' ->
+  same_esc b b' /\ forall u d, u <> v -> b' (AUser u) d = b (AUser u) d.
+Proof.
+  induction ops as [|[[[from to] d0] amt] t IH]; intros b b' H; simpl in H.
+  - inversion H; subst. split; [intros a d E|intros]; reflexivity.
+  - destruct (party_ok v from && party_ok v to && (0 <? amt)) eqn:G; [|discriminate].
+    apply andb_true_iff in G. destruct G as [G _]. apply andb_true_iff in G. destruct G as [G1 G2].
+    destruct (send b from to d0 amt) as [b1|] eqn:S; [|discriminate].
+    destruct (IH _ _ H) as [SE OU]. split.
+    + intros a d E. rewrite SE by auto. eapply send_same_esc; eauto using party_not_esc.
+    + intros u d N. rewrite OU by auto. destruct (send_some _ _ _ _ _ _ S) as (_ & Fr & _). apply Fr. left.
+      split; intro X; subst; simpl in *; apply Z.eqb_eq in G1 || apply Z.eqb_eq in G2; congruence.
+Qed.
+
+Lemma set_wallets_frame l : forall b,
+  same_esc b (set_wallets b l) /\
+  forall u d, (forall x, In x l -> fst (fst x) <> u) -> set_wallets b l (AUser u) d = b (AUser u) d.
+Proof.
+  induction l as [|[[u0 d0] v] t IH]; intro b; simpl.
+  - split; [intros a d E|intros]; reflexivity.
+  - destruct (IH (bset b (AUser u0) d0 v)) as [SE OU]. split.
+    + intros a d E. rewrite SE by auto. apply bset_other. left. intro; subst; discriminate.
+    + intros u d N. rewrite OU by (intros; apply N; auto). apply bset_other. left.
+      intro X. inversion X. apply (N (u0, d0, v)); auto.
+Qed.
+
+(* ---- the three ways the order list changes *)
+Lemma send_close b o b1 : exact_escrow b o ->
+  send b (esc o) (AUser (o_owner o)) (o_den o) (o_amt o) = Some b1 ->
+  (forall d, b1 (esc o) d = 0) /\
+  (forall d, b1 (AUser (o_owner o)) d = b (AUser (o_owner o)) d + (if d =? o_den o then o_amt o else 0)) /\
+  (forall a d, a <> esc o -> a <> AUser (o_owner o) -> b1 a d = b a d).
+Proof.
+  intros (A & K & X) S.
+  assert (esc o <> AUser (o_owner o)) as NE by apply esc_not_user.
+  destruct (send_some _ _ _ _ _ _ S) as (_ & Fr & Mv & _). destruct (Mv NE) as [M1 M2].
+  repeat split.
+  - intro d. destruct (Z.eqb_spec d (o_den o)); [subst; rewrite M1, X, Z.eqb_refl; lia|].
+    rewrite Fr by auto. rewrite X. destruct (Z.eqb_spec d (o_den o)); [contradiction|reflexivity].
+  - intro d. destruct (Z.eqb_spec d (o_den o)); [subst; rewrite M2; reflexivity|]. rewrite Fr by auto. lia.
+  - intros a d H1 H2. apply Fr. left; auto.
+Qed.
+
+Lemma sweep_close b o : exact_escrow b o ->
+  let b1 := sweep b (esc o) (AUser (o_owner o)) in
+  (forall d, b1 (esc o) d = 0) /\
+  (forall d, b1 (AUser (o_owner o)) d = b (AUser (o_owner o)) d + (if d =? o_den o then o_amt o else 0)) /\
+  (forall a d, a <> esc o -> a <> AUser (o_owner o) -> b1 a d = b a d).
+Proof.
+  intros (A & K & X) b1. subst b1.
+  assert (esc o <> AUser (o_owner o)) as NE by apply esc_not_user.
+  assert (forall d, 0 <= b (esc o) d) as NN. { intro d. rewrite X. destruct (d =? o_den o); lia. }
+  repeat split.
+  - intro d. rewrite sweep_spec by auto. rewrite addr_eqb_refl. destruct (known_denom d) eqn:KD; auto.
+    rewrite X. destruct (Z.eqb_spec d (o_den o)); auto. subst. congruence.
+  - intro d. rewrite sweep_spec by auto. rewrite (addr_eqb_neq _ _ (not_eq_sym NE)), addr_eqb_refl.
+    rewrite X. destruct (Z.eqb_spec d (o_den o)); [subst; rewrite K; reflexivity|]. destruct (known_denom d); lia.
+  - intros a d H1 H2. rewrite sweep_spec by auto. rewrite (addr_eqb_neq _ _ H1), (addr_eqb_neq _ _ H2).
+    destruct (known_denom d); reflexivity.
+Qed.
+
+(* an order leaves the list and its escrow account is emptied; no other escrow account moves *)
+Lemma inv_close s o b' : Inv s -> In o (ords s) ->
+  (forall d, b' (esc o) d = 0) ->
+  (forall a d, is_esc a = true -> a <> esc o -> b' a d = bk s a d) ->
+  Inv (mkS b' (remove_ord (o_perp o) (o_id o) (ords s)) (nsid s) (npid s)).
+Proof.
+  intros [ND IDS EX FRE] I Z0 OT. constructor; simpl.
+  - apply nodup_keys_remove; auto.
+  - intros x Ix. apply in_remove in Ix. apply IDS; tauto.
+  - intros x Ix. apply in_remove in Ix. destruct Ix as [Ix NK].
+    destruct (EX x Ix) as (A & K & X). repeat split; auto. intro d. rewrite OT; auto using is_esc_esc.
+    intro E. apply esc_inj in E. apply NK. rewrite E. reflexivity.
+  - intros p id d F. rewrite find_none_iff in F. rewrite in_keys_remove in F.
+    destruct (addr_eqb (esc_of p id) (esc o)) eqn:E.
+    + apply addr_eqb_eq in E. rewrite E. apply Z0.
+    + rewrite OT; [|destruct p; reflexivity|intro X; rewrite X, addr_eqb_refl in E; discriminate].
+      apply FRE. apply find_none_iff. intro IK. apply F. split; auto.
+      intro X. inversion X; subst. rewrite <- esc_esc_of, addr_eqb_refl in E. discriminate.
+Qed.
+
+(* a new order with the next id; its escrow account receives exactly the escrowed coin *)
+Lemma inv_create s n b' : Inv s ->
+  o_id n = (if o_perp n then npid s else nsid s) -> 0 <= o_amt n -> known_denom (o_den n) = true ->
+  (forall d, b' (esc n) d = bk s (esc n) d + (if d =? o_den n then o_amt n else 0)) ->
+  (forall a d, is_esc a = true -> a <> esc n -> b' a d = bk s a d) ->
+  Inv (mkS b' (ords s ++ [n]) (if o_perp n then nsid s else nsid s + 1) (if o_perp n then npid s + 1 else npid s)).
+Proof.
+  intros [ND IDS EX FRE] ID A K NEW OT.
+  assert (~ In (okey n) (map okey (ords s))) as FRESH.
+  { intro I. apply in_map_iff in I. destruct I as (x & E & Ix). specialize (IDS x Ix).
+    unfold okey in E. inversion E as [[E1 E2]]. rewrite E1, E2, ID in IDS. lia. }
+  assert (forall d, bk s (esc n) d = 0) as Z0.
+  { intro d. rewrite esc_esc_of. apply FRE. apply find_none_iff. exact FRESH. }
+  constructor; simpl.
+  - rewrite map_app. simpl.
+    clear - ND FRESH. induction (map okey (ords s)) as [|k l IH]; simpl.
+    + constructor; [intros []|constructor].
+    + inversion ND; subst. constructor.
+      * intro I. apply in_app_or in I. destruct I as [I|[I|[]]]; auto. apply FRESH. left; auto.
+      * apply IH; auto. intro; apply FRESH; right; auto.
+  - intros x Ix. apply in_app_or in Ix. destruct Ix as [Ix|[Ix|[]]].
+    + specialize (IDS x Ix). destruct (o_perp x), (o_perp n); lia.
+    + subst x. rewrite ID. destruct (o_perp n); lia.
+  - intros x Ix. apply in_app_or in Ix. destruct Ix as [Ix|[Ix|[]]].
+    + destruct (EX x Ix) as (A' & K' & X). repeat split; auto. intro d. rewrite OT; auto using is_esc_esc.
+      intro E. apply esc_inj in E. apply FRESH. rewrite <- E. apply in_map; auto.
+    + subst x. repeat split; auto. intro d. rewrite NEW, Z0. lia.
+  - intros p id d F. rewrite find_none_iff in F. rewrite map_app in F. simpl in F.
+    rewrite OT; [|destruct p; reflexivity|].
+    + apply FRE. apply find_none_iff. intro I. apply F. apply in_or_app; auto.
+    + intro X. rewrite esc_esc_of in X. apply esc_of_inj in X. destruct X; subst. apply F. apply in_or_app. right; left; reflexivity.
+Qed.
+
+(* an order is replaced by one with the same key and the same escrowed coin *)
+Lemma inv_update s n x : Inv s -> find_ord (o_perp n) (o_id n) (ords s) = Some x ->
+  o_den n = o_den x -> o_amt n = o_amt x ->
+  Inv (mkS (bk s) (replace_ord n (ords s)) (nsid s) (npid s)).
+Proof.
+  intros [ND IDS EX FRE] F D A.
+  destruct (find_ord_some _ _ _ _ F) as (Ix & Px & IDx).
+  constructor; simpl.
+  - rewrite keys_replace; auto.
+  - intros y Iy. apply in_replace in Iy. destruct Iy as [E|Iy]; auto. subst y.
+    specialize (IDS x Ix). rewrite Px, IDx in IDS. exact IDS.
+  - intros y Iy. apply in_replace in Iy. destruct Iy as [E|Iy]; auto. subst y.
+    destruct (EX x Ix) as (A' & K' & X). unfold exact_escrow. rewrite D, A. repeat split; auto.
+    intro d. replace (esc n) with (esc x); auto. unfold esc. rewrite Px, IDx. reflexivity.
+  - intros p id d Fn. apply FRE. eapply find_keys_eq; [|exact Fn]. symmetry. apply keys_replace.
+Qed.
+
+(* ---- the book value of the escrows *)
+Fixpoint book (l : list order) (u d : Z) : Z :=
+  match l with
+  | [] => 0
+  | o :: t => (if (o_owner o =? u) && (d =? o_den o) then o_amt o else 0) + book t u d
+  end.
+
+Lemma esc_sum_book b l u d : (forall o, In o l -> exact_escrow b o) -> esc_sum b l u d = book l u d.
+Proof.
+  induction l as [|x l IH]; intro H; simpl; auto.
+  rewrite IH by (intros; apply H; right; auto).
+  destruct (H x (or_introl eq_refl)) as (_ & _ & X). rewrite X.
+  destruct (o_owner x =? u), (d =? o_den x); reflexivity.
+Qed.
+
+Lemma total_book s u d : Inv s -> total s u d = bk s (AUser u) d + book (ords s) u d.
+Proof. intros [_ _ EX _]. unfold total. rewrite esc_sum_book; auto. Qed.
+
+Lemma book_remove o l u d : NoDup (map okey l) -> In o l ->
+  book (remove_ord (o_perp o) (o_id o) l) u d =
+  book l u d - (if (o_owner o =? u) && (d =? o_den o) then o_amt o else 0).
+Proof.
+  unfold remove_ord. induction l as [|x l IH]; intros ND I; [destruct I|].
+  simpl in ND. inversion ND as [|? ? NI ND']; subst. simpl.
+  destruct (key_eqb (o_perp o) (o_id o) x) eqn:K; simpl.
+  - apply key_eqb_true in K. destruct K as [K1 K2].
+    assert (x = o) as EQ.
+    { destruct I as [I|I]; auto. exfalso. apply NI. replace (okey x) with (okey o) by (unfold okey; congruence).
+      apply in_map; auto. }
+    subst x.
+    assert (filter (fun o0 => negb (key_eqb (o_perp o) (o_id o) o0)) l = l) as R.
+    { clear IH ND ND' I. induction l as [|y l IHl]; simpl; auto.
+      destruct (key_eqb (o_perp o) (o_id o) y) eqn:Ky.
+      - exfalso. apply key_eqb_true in Ky. destruct Ky. apply NI. left. unfold okey; congruence.
+      - simpl. f_equal. apply IHl. intro; apply NI; right; auto. }
+    rewrite R. lia.
+  - destruct I as [I|I]; [subst x; exfalso; assert (key_eqb (o_perp o) (o_id o) o = true) by (apply key_eqb_true; auto); congruence|].
+    rewrite (IH ND' I). lia.
+Qed.
+
+Lemma inv_wf s : Inv s -> WF s.
+Proof.
+  intros [ND IDS EX FRE]. constructor; auto.
+  intros d id. split; intro H.
+  - apply (FRE false id d). apply find_none_iff. intro I. apply in_map_iff in I. destruct I as (x & E & Ix).
+    specialize (IDS x Ix). unfold okey in E. inversion E as [[E1 E2]]. rewrite E1, E2 in IDS. lia.
+  - apply (FRE true id d). apply find_none_iff. intro I. apply in_map_iff in I. destruct I as (x & E & Ix).
+    specialize (IDS x Ix). unfold okey in E. inversion E as [[E1 E2]]. rewrite E1, E2 in IDS. lia.
+Qed.
+
+(* closing an order (cancel, or successful execution followed by the inner call's transfers [b1 -> b2]) *)
+Lemma close_gen s o b1 b2 : Inv s -> In o (ords s) ->
+  (forall d, b1 (esc o) d = 0) ->
+  (forall d, b1 (AUser (o_owner o)) d = bk s (AUser (o_owner o)) d + (if d =? o_den o then o_amt o else 0)) ->
+  (forall a d, a <> esc o -> a <> AUser (o_owner o) -> b1 a d = bk s a d) ->
+  same_esc b1 b2 ->
+  let s' := mkS b2 (remove_ord (o_perp o) (o_id o) (ords s)) (nsid s) (npid s) in
+  Inv s' /\ forall u d, b2 (AUser u) d = b1 (AUser u) d -> total s' u d = total s u d.
+Proof.
+  intros I In0 Z0 W R SE s'.
+  assert (Inv s') as I'.
+  { apply inv_close; auto.
+    - intro d. rewrite SE by apply is_esc_esc. apply Z0.
+    - intros a d E N. rewrite SE by auto. apply R; auto. intro X; subst; discriminate. }
+  split; auto. intros u d U.
+  rewrite (total_book s' u d I'), (total_book s u d I). simpl.
+  assert (NoDup (map okey (ords s))) as ND by (destruct I; auto).
+  rewrite book_remove by auto. rewrite U.
+  destruct (Z.eqb_spec (o_owner o) u) as [E|E].
+  - subst u. rewrite W. simpl. lia.
+  - rewrite R; [simpl; lia | intro X; symmetry in X; revert X; apply esc_not_user | congruence].
+Qed.
+
+Lemma same_esc_refl b : same_esc b b.
+Proof. intros a d _. reflexivity. Qed.
+
+Lemma cancel_one_inv s sender p id s' : Inv s -> cancel_one sender p id s = Ok s' ->
+  Inv s' /\ forall u d, total s' u d = total s u d.
+Proof.
+  intros I C. unfold cancel_one in C. destruct (id =? 0); [discriminate|].
+  destruct (find_ord p id (ords s)) as [o|] eqn:F; [|discriminate].
+  destruct (negb (o_owner o =? sender)); [discriminate|].
+  destruct (find_ord_some _ _ _ _ F) as (Io & Po & IDo).
+  assert (exact_escrow (bk s) o) as EX by (destruct I as [_ _ EX _]; auto).
+  destruct p.
+  - destruct (send _ _ _ _ _) as [b1|] eqn:S; [|discriminate]. inversion C; subst s'; clear C.
+    destruct (send_close _ _ _ EX S) as (Z0 & W & R).
+    destruct (close_gen s o b1 b1 I Io Z0 W R (same_esc_refl _)) as [I' T]. rewrite Po, IDo in *. split; auto.
+  - inversion C; subst s'; clear C.
+    destruct (sweep_close _ _ EX) as (Z0 & W & R).
+    destruct (close_gen s o _ _ I Io Z0 W R (same_esc_refl _)) as [I' T]. rewrite Po, IDo in *. split; auto.
+Qed.
+
+Lemma cancel_list_inv sender p ids : forall s s', Inv s -> cancel_list sender p ids s = Ok s' ->
+  Inv s' /\ forall u d, total s' u d = total s u d.
+Proof.
+  induction ids as [|i t IH]; intros s s' I C; simpl in C.
+  - inversion C; subst; auto.
+  - destruct (cancel_one sender p i s) as [s1| |] eqn:C1; simpl in C; try discriminate.
+    destruct (cancel_one_inv _ _ _ _ _ I C1) as [I1 T1]. destruct (IH _ _ I1 C) as [I2 T2].
+    split; auto. intros. rewrite T2, T1. reflexivity.
+Qed.
+
+(* one order attempt of the repaired ExecuteOrders *)
+Definition sub_ords (s s' : state) : Prop :=
+  forall p id x, find_ord p id (ords s') = Some x -> find_ord p id (ords s) = Some x.
+
+Definition no_exec (u : Z) (p : bool) (l : list (Z * reso)) (s : state) : Prop :=
+  forall id r o, In (id, r) l -> find_ord p id (ords s) = Some o -> o_owner o = u -> untrig o r \/ inner_fails r.
+
+Lemma exec_one_inv s o r s' : Inv s -> In o (ords s) -> exec_one true o r s = Ok s' ->
+  Inv s' /\ sub_ords s s' /\
+  forall u, (o_owner o = u -> untrig o r \/ inner_fails r) -> forall d, total s' u d = total s u d.
+Proof.
+  intros I Io E. pose proof E as E0.
+  assert (s' = s -> Inv s' /\ sub_ords s s' /\
+          forall u, (o_owner o = u -> untrig o r \/ inner_fails r) -> forall d, total s' u d = total s u d) as SAME.
+  { intro X; subst s'. split; [auto | split; [intros p id x H; exact H | reflexivity]]. }
+  unfold exec_one in E.
+  destruct (r_price r) as [mp|]; [|inversion E; subst; apply SAME; reflexivity].
+  destruct (negb (o_perp o) && (mp =? 0)); [inversion E; subst; apply SAME; reflexivity|].
+  destruct (negb (triggered o mp)); [destruct (o_perp o); inversion E; subst; apply SAME; reflexivity|].
+  destruct (send _ _ _ _ _) as [b1|] eqn:S; [|inversion E; subst; apply SAME; reflexivity].
+  destruct (r_inner r) as [ops|ops|]; [|inversion E; subst; apply SAME; reflexivity|discriminate].
+  destruct (apply_xfers (o_owner o) b1 ops) as [b2| |] eqn:A; simpl in E; try discriminate.
+  inversion E; subst s'; clear E.
+  assert (exact_escrow (bk s) o) as EX by (destruct I as [_ _ EX _]; auto).
+  destruct (send_close _ _ _ EX S) as (Z0 & W & R).
+  destruct (apply_xfers_frame _ _ _ _ A) as [SE OU].
+  destruct (close_gen s o b1 b2 I Io Z0 W R SE) as [I' T]. split; auto. split.
+  - intros p id x H. simpl in H. eapply find_remove_some; eauto.
+  - intros u Q d. destruct (Z.eq_dec (o_owner o) u) as [EU|NU].
+    + assert (mkS b2 (remove_ord (o_perp o) (o_id o) (ords s)) (nsid s) (npid s) = s) as X
+        by (destruct (Q EU); [eapply exec_one_untrig | eapply exec_one_fixed_fails]; eauto).
+      rewrite X. reflexivity.
+    + apply T. apply OU. congruence.
+Qed.
+
+Lemma exec_list_inv p l : forall s s', Inv s -> exec_list true p l s = Ok s' ->
+  Inv s' /\ sub_ords s s' /\ forall u, no_exec u p l s -> forall d, total s' u d = total s u d.
+Proof.
+  induction l as [|[id r] t IH]; intros s s' I E; simpl in E.
+  - inversion E; subst. split; [auto | split; [intros p' id x H; exact H | reflexivity]].
+  - destruct (id =? 0); [discriminate|].
+    destruct (find_ord p id (ords s)) as [o|] eqn:F; [|discriminate].
+    destruct (exec_one true o r s) as [s1| |] eqn:E1; simpl in E; try discriminate.
+    destruct (find_ord_some _ _ _ _ F) as (Io & _ & _).
+    destruct (exec_one_inv s o r s1 I Io E1) as (I1 & S1 & T1).
+    destruct (IH s1 s' I1 E) as (I2 & S2 & T2).
+    split; [auto | split].
+    + intros p' id' x H. apply S1. apply S2. exact H.
+    + intros u Q d. rewrite T2, T1; auto.
+      * intro OW. eapply Q; eauto. left; reflexivity.
+      * intros id' r' o' In' F' OW. eapply Q; eauto. right; exact In'.
+Qed.
+
+(* ---- which steps may change the funds of user [u] *)
+Definition op_ok (o : op) : bool := match o with OSend _ to _ _ => negb (is_esc to) | _ => true end.
+Definition no_escrow_transfers (h : list op) : Prop := Forall (fun o => op_ok o = true) h.
+
+Definition quiet (s : state) (o : op) (u : Z) : Prop :=
+  match o with
+  | OCreateSpot owner typ _ _ _ _ _ _ => typ = 3 -> owner <> u            (* a market buy of u is filled at once *)
+  | OExecute _ sids pids => no_exec u false sids s /\ no_exec u true pids s (* no order of u is executed *)
+  | OSend from to _ _ => from <> u /\ to <> AUser u                        (* plain transfers of / to u *)
+  | OEnv l => forall x, In x l -> fst (fst x) <> u                         (* settlement of u's queued swaps *)
+  | _ => True
+  end.
+
+Lemma step_inv s o s' : Inv s -> op_ok o = true -> step_gen true s o = Ok s' ->
+  Inv s' /\ forall u, quiet s o u -> forall d, total s' u d = total s u d.
+Proof.
+  intros I OK E.
+  assert (exec_gen true s o = s') as EG by (unfold exec_gen, run_tx; rewrite E; reflexivity).
+  destruct o; simpl in E.
+  - (* create spot *)
+    destruct (_ || _ || _ || _ || _) eqn:G; [discriminate|].
+    apply orb_false_iff in G. destruct G as [G G5]. apply orb_false_iff in G. destruct G as [G G4].
+    apply orb_false_iff in G. destruct G as [G G3]. apply orb_false_iff in G. destruct G as [G1 G2].
+    destruct (Z.eqb_spec typ 3) as [T3|T3].
+    + destruct inn as [ops| |]; try discriminate.
+      destruct (apply_xfers owner (bk s) ops) as [b| |] eqn:A; simpl in E; try discriminate.
+      inversion E; subst s'; clear E. destruct (apply_xfers_frame _ _ _ _ A) as [SE OU]. split.
+      * apply inv_same_esc; auto.
+      * intros u Q d. unfold total, set_bk; simpl. rewrite OU by (intro X; apply (Q T3); auto).
+        f_equal. apply esc_sum_ext. intros x _ _. apply SE. apply is_esc_esc.
+    + destruct (send _ _ _ _ _) as [b|] eqn:S; [|discriminate]. split.
+      * inversion E; subst s'; clear E.
+        set (n := mkO false (nsid s) owner typ base quote rate den amt 0 0 0) in *.
+        assert (AUser owner <> esc n) as NE by discriminate.
+        destruct (send_some _ _ _ _ _ _ S) as (_ & Fr & Mv & _). destruct (Mv NE) as [M1 M2].
+        apply (inv_create s n b I); simpl; auto; try lia.
+        -- apply negb_false_iff; auto.
+        -- intro d. destruct (Z.eqb_spec d den); [subst; rewrite M2; reflexivity|]. rewrite Fr by auto. lia.
+        -- intros a d Ea Na. apply Fr. left. split; auto. intro; subst; discriminate.
+      * intros u _ d. rewrite <- EG. apply conserved_partial; auto using inv_wf.
+  - (* update spot *)
+    destruct (_ || _); [discriminate|]. destruct (find_ord false id (ords s)) as [x|] eqn:F; [|discriminate].
+    destruct (negb _); [discriminate|]. split.
+    + inversion E; subst s'; clear E. eapply (inv_update s (mkO false id (o_owner x) (o_type x) base quote rate (o_den x) (o_amt x) 0 0 0) x); eauto.
+    + intros u _ d. rewrite <- EG. apply conserved_partial; auto using inv_wf.
+  - (* cancel spot *)
+    destruct (cancel_one_inv _ _ _ _ _ I E) as [I' T]. split; auto.
+  - (* cancel spots *)
+    destruct ids; [discriminate|]. destruct (existsb _ _); [discriminate|].
+    destruct (cancel_list_inv _ _ _ _ _ I E) as [I' T]. split; auto.
+  - (* create perp *)
+    destruct (_ || _ || _ || _ || _ || _) eqn:G; [discriminate|].
+    apply orb_false_iff in G. destruct G as [G G6]. apply orb_false_iff in G. destruct G as [G G5].
+    apply orb_false_iff in G. destruct G as [G G4]. apply orb_false_iff in G. destruct G as [G G3].
+    apply orb_false_iff in G. destruct G as [G1 G2].
+    destruct (env =? 1); [discriminate|]. destruct (existsb _ _); [discriminate|]. destruct (negb (env =? 0)); [discriminate|].
+    destruct (send _ _ _ _ _) as [b|] eqn:S; [|discriminate]. split.
+    + inversion E; subst s'; clear E.
+      set (n := mkO true (npid s) owner pos 0 0 trig den amt tp pool asset) in *.
+      assert (AUser owner <> esc n) as NE by discriminate.
+      destruct (send_some _ _ _ _ _ _ S) as (_ & Fr & Mv & _). destruct (Mv NE) as [M1 M2].
+      apply (inv_create s n b I); simpl; auto; try lia.
+      * apply negb_false_iff; auto.
+      * intro d. destruct (Z.eqb_spec d den); [subst; rewrite M2; reflexivity|]. rewrite Fr by auto. lia.
+      * intros a d Ea Na. apply Fr. left. split; auto. intro; subst; discriminate.
+    + intros u _ d. rewrite <- EG. apply conserved_partial; auto using inv_wf.
+  - (* update perp *)
+    destruct (_ || _); [discriminate|]. destruct (find_ord true id (ords s)) as [x|] eqn:F; [|discriminate].
+    destruct (negb _); [discriminate|]. destruct (trig =? 0); [discriminate|].
+    destruct (_ && _); [discriminate|]. destruct (_ && _); [discriminate|]. split.
+    + inversion E; subst s'; clear E.
+      eapply (inv_update s (mkO true id (o_owner x) (o_type x) 0 0 trig (o_den x) (o_amt x) (o_tp x) (o_pool x) (o_asset x)) x); eauto.
+    + intros u _ d. rewrite <- EG. apply conserved_partial; auto using inv_wf.
+  - (* cancel perp *)
+    destruct (cancel_one_inv _ _ _ _ _ I E) as [I' T]. split; auto.
+  - (* cancel perps *)
+    destruct ids; [discriminate|]. destruct (existsb _ _); [discriminate|].
+    destruct (cancel_list_inv _ _ _ _ _ I E) as [I' T]. split; auto.
+  - (* execute *)
+    assert (forall s1, exec_list true false sids s = Ok s1 -> exec_list true true pids s1 = Ok s' ->
+              Inv s' /\ forall u, quiet s (OExecute sender sids pids) u -> forall d, total s' u d = total s u d) as K.
+    { intros s1 E1 E2.
+      destruct (exec_list_inv false sids s s1 I E1) as (I1 & S1 & T1).
+      destruct (exec_list_inv true pids s1 s' I1 E2) as (I2 & S2 & T2).
+      split; auto. intros u [Q1 Q2] d. rewrite T2, T1; auto.
+      intros id r o In' F' OW. eapply Q2; eauto. }
+    destruct sids as [|a sids'], pids as [|b pids']; try discriminate;
+      destruct (existsb _ _ || existsb _ _); try discriminate;
+      destruct (exec_list true false _ s) as [s1| |] eqn:E1; simpl in E; try discriminate;
+      eapply K; eauto.
+  - (* bank send to a user or an outside account *)
+    destruct ((amt <=? 0) || future_esc s to); [discriminate|].
+    destruct (send _ _ _ _ _) as [b|] eqn:S; [|discriminate]. inversion E; subst s'; clear E.
+    simpl in OK. apply negb_true_iff in OK.
+    assert (same_esc (bk s) b) as SE by (eapply send_same_esc; eauto).
+    split; [apply inv_same_esc; auto|].
+    intros u [Q1 Q2] d'. unfold total, set_bk; simpl.
+    destruct (send_some _ _ _ _ _ _ S) as (_ & Fr & _).
+    rewrite Fr by (left; split; congruence). f_equal.
+    apply esc_sum_ext. intros x _ _. apply SE. apply is_esc_esc.
+  - (* end of block: wallets as settled by other modules *)
+    inversion E; subst s'; clear E. destruct (set_wallets_frame l (bk s)) as [SE OU].
+    split; [apply inv_same_esc; auto|].
+    intros u Q d. unfold total, set_bk; simpl. rewrite OU by auto. f_equal.
+    apply esc_sum_ext. intros x _ _. apply SE. apply is_esc_esc.
+Qed.
+
+(* ---- over histories *)
+Theorem inv_exec s o : Inv s -> op_ok o = true -> Inv (exec_gen true s o).
+Proof.
+  intros I OK. unfold exec_gen, run_tx. destruct (step_gen true s o) as [s'| |] eqn:E; auto.
+  eapply step_inv; eauto.
+Qed.
+
+Theorem inv_run : forall h s, Inv s -> no_escrow_transfers h -> Inv (run_gen true s h).
+Proof.
+  induction h as [|o t IH]; intros s I NE; simpl; auto.
+  inversion NE; subst. apply IH; auto. apply inv_exec; auto.
+Qed.
+
+Lemma inv_init b : (forall a d, is_esc a = true -> b a d = 0) -> Inv (init_state b).
+Proof.
+  intro Z0. constructor; simpl.
+  - constructor.
+  - intros o [].
+  - intros o [].
+  - intros p id d _. apply Z0. destruct p; reflexivity.
+Qed.
+
+Lemma inv_init_wallets l : Inv (init_state (set_wallets (fun _ _ => 0) l)).
+Proof. apply inv_init. intros a d E. destruct (set_wallets_frame l (fun _ _ => 0)) as [SE _]. rewrite SE; auto. Qed.
+
+(* every pending order's escrow account holds exactly its escrowed coin, after every history *)
+Theorem escrow_exact_history : forall h s, Inv s -> no_escrow_transfers h ->
+  forall o, In o (ords (run_gen true s h)) -> exact_escrow (bk (run_gen true s h)) o.
+Proof. intros h s I NE. destruct (inv_run h s I NE) as [_ _ EX _]. exact EX. Qed.
+
+Theorem conserved : forall s o u, Inv s -> op_ok o = true -> quiet s o u ->
+  forall d, total (exec_gen true s o) u d = total s u d.
+Proof.
+  intros s o u I OK Q d. unfold exec_gen, run_tx. destruct (step_gen true s o) as [s'| |] eqn:E; auto.
+  destruct (step_inv _ _ _ I OK E) as [_ T]. apply T; auto.
+Qed.
+
+Fixpoint quiet_run (s : state) (h : list op) (u : Z) : Prop :=
+  match h with
+  | [] => True
+  | o :: t => quiet s o u /\ quiet_run (exec_gen true s o) t u
+  end.
+
+Theorem conserved_history : forall h s u, Inv s -> no_escrow_transfers h -> quiet_run s h u ->
+  forall d, total (run_gen true s h) u d = total s u d.
+Proof.
+  induction h as [|o t IH]; intros s u I NE Q d; simpl; auto.
+  inversion NE; subst. destruct Q as [Q1 Q2].
+  rewrite IH; auto using inv_exec. apply conserved; auto.
+Qed.
+
+(* ---- a concrete history: create, create for another owner, update, create, a third party executes the
+   OTHER owner's order, batch cancel *)
+Definition ex_s0 : state :=
+  init_state (set_wallets (fun _ _ => 0) [(0, 0, 1000000000000); (0, 1, 1000000000000); (1, 0, 1000000000000)]).
+Definition ex_h : list op :=
+  [ OCreateSpot 0 1 1 0 6000000000000000000 1 1000000 (IErr []);
+    OCreatePerp 1 1 5000000000000000000 0 10000000 20000000000000000000 1 1 0;
+    OUpdateSpot 0 1 1 0 7000000000000000000;
+    OCreateSpot 0 0 1 0 4000000000000000000 1 2000000 (IErr []);
+    OExecute 2 [] [(1, mkR (Some 4500000000000000000) (IOk [(AUser 1, AExt 0, 0, 10000000)]))];
+    OCancelSpots 0 [2; 1] ].
+
+Lemma conserved_nonvacuous :
+  Inv ex_s0 /\ no_escrow_transfers ex_h /\ quiet_run ex_s0 ex_h 0 /\
+  length (ords (run_gen true ex_s0 (firstn 4 ex_h))) = 3%nat /\
+  length (ords (run_gen true ex_s0 (firstn 5 ex_h))) = 2%nat /\
+  bk (run_gen true ex_s0 (firstn 5 ex_h)) (AUser 0) 1 = 1000000000000 - 3000000 /\
+  total (run_gen true ex_s0 (firstn 5 ex_h)) 0 1 = 1000000000000 /\
+  ords (run_gen true ex_s0 ex_h) = [] /\
+  total (run_gen true ex_s0 ex_h) 0 1 = total ex_s0 0 1 /\
+  total (run_gen true ex_s0 ex_h) 1 0 = total ex_s0 1 0 - 10000000.
+Proof.
+  split; [apply inv_init_wallets|].
+  split; [repeat constructor|].
+  split.
+  - simpl. repeat split; try (intro H; discriminate).
+    + intros id r o [].
+    + intros id r o [H|[]] F OW. inversion H; subst. vm_compute in F. inversion F; subst. vm_compute in OW. discriminate.
+  - vm_compute. repeat split.
+Qed.
+
+Corollary inv_run_from_wallets : forall l h, no_escrow_transfers h ->
+  Inv (run_gen true (init_state (set_wallets (fun _ _ => 0) l)) h).
+Proof. intros. apply inv_run; auto. apply inv_init_wallets. Qed.
+
+(* in every reachable state the owner's cancel succeeds and returns the escrow in full *)
+Corollary cancel_full_history : forall h s, Inv s -> no_escrow_transfers h ->
+  let t := run_gen true s h in
+  forall p id o, find_ord p id (ords t) = Some o -> id <> 0 ->
+  exists t', step_gen true t (if p then OCancelPerp (o_owner o) id else OCancelSpot (o_owner o) id) = Ok t' /\
+    ords t' = remove_ord p id (ords t) /\
+    (forall d, bk t' (esc o) d = 0) /\
+    (forall d, bk t' (AUser (o_owner o)) d = bk t (AUser (o_owner o)) d + (if d =? o_den o then o_amt o else 0)) /\
+    (forall a d, a <> esc o -> a <> AUser (o_owner o) -> bk t' a d = bk t a d).
+Proof.
+  intros h s I NE t p id o F N. apply cancel_full; auto.
+  destruct (find_ord_some _ _ _ _ F) as (Io & _ & _).
+  destruct (inv_run h s I NE) as [_ _ EX _]. apply EX; auto.
+Qed.
